@@ -21,6 +21,9 @@ ASSUMPTIONS = ['ismrmrd / h5py I/O is trusted', 'pypulseq trajectory calculation
 OTHER = ['average', 'slice', 'contrast', 'phase', 'repetition', 'set', 'user0', 'user4', 'user7']
 
 
+ANGLE = 0.7
+
+
 def generate(rng: random.Random, tier: str):
     thorough = tier == 'thorough'
     cases = []
@@ -28,7 +31,8 @@ def generate(rng: random.Random, tier: str):
         others = rng.sample(OTHER, rng.choice([0, 1, 1, 2]))
         cases.append({'kind': 'load', 'n_k1': rng.randint(1, 4), 'n_k2': rng.choice([1, 1, 2, 3]), 'others': {o: rng.randint(2, 3) for o in others},
                       'ragged': rng.random() < 0.15, 'reversed': rng.random() < 0.3, 'struct_flags': rng.random() < 0.5,
-                      'interleave': rng.choice(['none', 'noise', 'calibration', 'othercoil', 'mixed']), 'traj': rng.choice(['cartesian', 'cartesian', 'radial', 'stored', 'user']),
+                      'interleave': rng.choice(['none', 'noise', 'calibration', 'othercoil', 'mixed']), 'traj': rng.choice(['cartesian', 'cartesian', 'radial', 'stored', 'user', 'rpe', 'rpe']),
+                      'k1_offset': rng.choice([0, 0, 1, 3]), 'k2_offset': rng.choice([0, 0, 1, 2, 5]),
                       'perm': rng.choice(['random', 'random', 'reverse', 'all']), 'seed': rng.randrange(1 << 30)})
     for _ in range(20 if thorough else 6):
         cases.append({'kind': 'pulseq', 'zero_axis': rng.choice(['none', 'z', 'zy']), 'seed': rng.randrange(1 << 30)})
@@ -61,6 +65,9 @@ def build_acqs(case, rng):
             if rng.random() < 0.3:
                 flags |= 1 << (rng.choice([ismrmrd.ACQ_FIRST_IN_AVERAGE, ismrmrd.ACQ_LAST_IN_AVERAGE, ismrmrd.ACQ_LAST_IN_SLICE, ismrmrd.ACQ_FIRST_IN_SLICE,
                                            ismrmrd.ACQ_LAST_IN_REPETITION, ismrmrd.ACQ_LAST_IN_MEASUREMENT, ismrmrd.ACQ_IS_PARALLEL_CALIBRATION_AND_IMAGING]) - 1)
+        # encoding step numbers need not start at 0 (e.g. a file holding lines 2..9)
+        lab['k1'] += case.get('k1_offset', 0)
+        lab['k2'] += case.get('k2_offset', 0)
         acqs.append({'labels': lab, 'id': ident, 'flags': flags, 'image': True})
         ident += 1
     extra = []
@@ -69,6 +76,7 @@ def build_acqs(case, rng):
     for _ in range(n_extra):
         kind = k if k != 'mixed' else rng.choice(['noise', 'calibration', 'othercoil'])
         lab = {l: 0 for l in labels}
+        lab['k1'], lab['k2'] = case.get('k1_offset', 0), case.get('k2_offset', 0)
         a = {'labels': lab, 'id': ident, 'flags': 0, 'image': False}
         if kind == 'noise':
             a['flags'] = 1 << (ismrmrd.ACQ_IS_NOISE_MEASUREMENT - 1)
@@ -110,7 +118,7 @@ def snapshot(kd):
 def run_load(case, drv) -> Outcome:
     import ismrmrd
     from mrpro.data import KData, KTrajectory
-    from mrpro.data.traj_calculators import KTrajectoryCartesian, KTrajectoryIsmrmrd, KTrajectoryRadial2D
+    from mrpro.data.traj_calculators import KTrajectoryCartesian, KTrajectoryIsmrmrd, KTrajectoryRadial2D, KTrajectoryRpe
 
     warnings.filterwarnings('ignore')
     rng = random.Random(case['seed'])
@@ -132,7 +140,9 @@ def run_load(case, drv) -> Outcome:
         if case['traj'] == 'cartesian':
             tr = KTrajectoryCartesian()
         elif case['traj'] == 'radial':
-            tr = KTrajectoryRadial2D()
+            tr = KTrajectoryRadial2D(angle=ANGLE)
+        elif case['traj'] == 'rpe':
+            tr = KTrajectoryRpe(angle=ANGLE)
         elif case['traj'] == 'stored':
             tr = KTrajectoryIsmrmrd()
         else:
@@ -180,7 +190,7 @@ def run_load(case, drv) -> Outcome:
         # trajectory agrees readout by readout with indices / stored samples
         tz, ty, tx = (torch.tensor(t).reshape(s0['traj_shape']) for t in s0['traj'])
         ids_t = torch.tensor(s0['ids']).reshape(s0['shape'][0], s0['shape'][2], s0['shape'][3])
-        if case['traj'] in ('cartesian', 'radial', 'stored') and not torch.isfinite(torch.stack([tz, ty, tx])).all():
+        if case['traj'] in ('cartesian', 'radial', 'stored', 'rpe') and not torch.isfinite(torch.stack([tz, ty, tx])).all():
             viol = viol or v('traj-finite', 'trajectory is not finite')
         if case['traj'] == 'cartesian' and viol is None:
             lim1 = kd0.header.encoding_limits.k1.center
@@ -197,6 +207,27 @@ def run_load(case, drv) -> Outcome:
                 if kxs != [float(q) for q in mk]:
                     corr = corr or f'{cfg}: readout axis of readout {a["id"]} (reversed {rev}): impl {kxs} model {mk}'
                     viol = viol or v('traj-readout', f'readout {a["id"]} (reversed {rev}) has kx {kxs}, expected {"reversed " if rev else ""}j - center_sample')
+        if case['traj'] in ('radial', 'rpe') and viol is None:
+            # every readout lies where its own indices put it (radial: angle from k1; RPE: angle from k2, radial position from k1,
+            # shift of the line chosen by k2 modulo the number of shifts, centre point not shifted)
+            lim1 = kd0.header.encoding_limits.k1.center
+            shifts = (0.0, 0.5, 0.25, 0.75)
+            for pos in itertools.product(*[range(s) for s in ids_t.shape]):
+                a = byid[int(ids_t[pos])]
+                rev = bool(a['flags'] >> (ismrmrd.ACQ_IS_REVERSE - 1) & 1)
+                kf = [float(q) for q in drv.call({'op': 'kfreq', 'n': n_k0, 'center': n_k0 // 2, 'reversed': rev})['k']]
+                got = [[float(q) for q in t[pos[0], pos[1], pos[2], :]] for t in (tz, ty, tx)]
+                if case['traj'] == 'radial':
+                    ang = a['labels']['k1'] * ANGLE
+                    want = [[0.0] * n_k0, [r * math.sin(ang) for r in kf], [r * math.cos(ang) for r in kf]]
+                else:
+                    ang = a['labels']['k2'] * ANGLE
+                    k1c = a['labels']['k1'] - lim1
+                    krad = k1c + (shifts[a['labels']['k2'] % 4] if k1c != 0 else 0.0)
+                    want = [[krad * math.sin(ang)] * n_k0, [krad * math.cos(ang)] * n_k0, kf]
+                if any(abs(g - w) > 2e-5 * (1 + abs(w)) for gg, ww in zip(got, want, strict=True) for g, w in zip(gg, ww, strict=True)):
+                    viol = viol or v(f'traj-{case["traj"]}', f'readout {a["id"]} (k1 {a["labels"]["k1"]}, k2 {a["labels"]["k2"]}, centre {lim1}) is at kz,ky,kx = '
+                                     f'{[g[:2] for g in got]}, its indices give {[w[:2] for w in want]}')
         if case['traj'] == 'stored' and viol is None:
             for pos in itertools.product(*[range(s) for s in ids_t.shape]):
                 i = int(ids_t[pos])
